@@ -891,6 +891,12 @@ Proof.
   - destruct Hp. lia.
 Qed.
 
+Lemma existsb_false_in {A} (f : A -> bool) l q : existsb f l = false -> In q l -> f q = false.
+Proof.
+  induction l as [|a r IH]; cbn; intros H Hq; [contradiction|]. apply orb_false_iff in H. destruct H as [H1 H2].
+  destruct Hq as [->|Hq]; auto.
+Qed.
+
 Lemma rel_write_local s s1 st st' locals locals' vs restv rest M Mm i x v pc (tee : bool) :
   rel s st locals vs M -> cwf nl s1 -> small s1 -> mupd M Mm ->
   Forall2 (fun p w => repr (denote M p) w) rest restv -> Forall (pwf nl s1) rest -> has_local (Z.of_nat i) rest = false ->
@@ -905,13 +911,11 @@ Proof.
   assert (HNR : 0 <= Z.of_nat i < NR) by (destruct S1; destruct W1 as [[? ?] _ _ _ _]; lia).
   assert (Hrest : Forall2 (fun p w => repr (get_local consts (set_pc (set_reg Mm (Z.of_nat i) x) pc) (provider_idx p)) w) rest restv).
   { eapply stack_kept; eauto. intros q Hq. rewrite Forall_forall in Fp.
-    eapply no_local_idx; eauto. unfold has_local in Hl. rewrite existsb_exists in Hl.
-    destruct (is_local (Z.of_nat i) q) eqn:E; auto. exfalso. apply (proj1 (not_true_iff_false _)) in Hl; auto.
-    exists q. auto. }
+    eapply no_local_idx; eauto. eapply existsb_false_in; eauto. }
   assert (Hsame : get_local consts (set_pc (set_reg Mm (Z.of_nat i) x) pc) (Z.of_nat i) = x).
   { apply (denote_write_same M Mm); auto; try lia. eapply reg_in_range; eauto. }
   eapply (rel_after_write s s1 st st' locals locals' vs); eauto.
-  - rewrite Es. destruct tee; [constructor; [cbn [provider_idx]; rewrite Hsame; exact Hx|exact Hrest]|exact Hrest].
+  - destruct tee; [constructor; [cbn [provider_idx]; rewrite Hsame; exact Hx|exact Hrest]|exact Hrest].
   - rewrite Hlen. apply (r_nl _ _ _ _ _ R).
   - intros j w Hj. rewrite Hnth in Hj. destruct (Nat.eqb_spec j i) as [->|Hne].
     + inversion Hj; subst. rewrite Hsame. exact Hx.
@@ -921,6 +925,419 @@ Proof.
       * unfold denote. cbn [provider_idx]. rewrite get_local_nonneg by lia. apply (r_locals _ _ _ _ _ R). exact Hj.
       * eapply reg_in_range; eauto.
       * cbn. lia.
+Qed.
+
+Lemma step_global_set s s1 i st locals vs M :
+  cwf nl s -> small s1 -> Z.of_nat i < 65536 -> rel s st locals vs M ->
+  gi (set_last s None) IGlobalSet (u16_bytes (Z.of_nat i)) 1 false = Some s1 ->
+  step_ok s s1 M (exec_simple cap (BGlobalSet i) st locals vs) /\ c_last s1 = None.
+Proof.
+  intros W S1 Hi R Hgi.
+  destruct (gi_compile s _ _ _ false s1 W Hgi) as (ps & rest & Es & Lps & Fps & Ec & Eb & W1 & Bn & (Es1 & Eo & El)).
+  split; [|exact El]. destruct ps as [|p [|? ?]]; try discriminate Lps.
+  exists (IGlobalSet :: u16_bytes (Z.of_nat i) ++ loc_bytes [p]). split; [exact Eo|].
+  split; [split; [lia|exists []; rewrite app_nil_r; exact Ec]|]. intros Hc.
+  assert (S : small s) by (eapply small_mono; eauto; lia).
+  pose proof (r_stack _ _ _ _ _ R) as RS. rewrite Es in RS. cbn [app] in RS.
+  inversion RS as [|? v ? restv Rp Rr]; subst. cbn [exec_simple].
+  destruct (set_nth (s_globals st) i v) as [g'|] eqn:Eg; [|exact I]. cbn [ok sim_result].
+  split; [exact W1|].
+  assert (Hp : idx_ok (provider_idx p)).
+  { inversion Fps; subst. eapply idx_ok_of_pwf; eauto. apply W. }
+  unfold loc_bytes in Hc. cbn [flat_map] in Hc. rewrite app_nil_r in Hc. rewrite <- (r_pc _ _ _ _ _ R) in Hc.
+  pose proof (mstep_global_set M i (provider_idx p) (r_idx _ _ _ _ _ R) Hc Hi Hp) as Hstep.
+  eexists 1%nat, _. split; [cbn; rewrite Hstep; reflexivity|]. split; [|repeat split].
+  destruct R. constructor; cbn [ms_idx ms_pc ms_regs ms_base ms_globals ms_mem set_pc set_mglobals]; auto.
+  - unfold cur_off. rewrite Eo, app_length. cbn [length]. rewrite app_length, u16_bytes_length.
+    unfold loc_bytes. cbn [flat_map]. rewrite app_nil_r, i32_bytes_length. unfold cur_off in r_pc0. lia.
+  - cbn [set_globals s_globals]. eapply Forall2_list_set; eauto.
+Qed.
+
+(** ** local.set / local.tee: the part after the (optional) preservation copy *)
+Definition set_tee_tail (s3 : cstate) (idx : Z) (is_set : bool) : option cstate :=
+  match push_consume (push_op s3 ICopy) with
+  | Some (_, s4) => let s5 := emit s4 (i32_bytes idx) in
+                    Some (if is_set then s5 else provide_existing s5 (PLocal idx))
+  | None => None
+  end.
+
+Lemma step_tee_tail s3 s1 i is_set :
+  cwf nl s3 -> small s1 -> has_local (Z.of_nat i) (c_stack s3) = false -> c_last s3 = None ->
+  set_tee_tail s3 (Z.of_nat i) is_set = Some s1 ->
+  exists tail, c_out s1 = c_out s3 ++ tail /\ mono s3 s1 /\ c_last s1 = None /\
+    forall st locals vs M, rel s3 st locals vs M -> code_at c (cur_off s3) tail ->
+      sim_result M s1 (exec_simple cap (if is_set then BLocalSet i else BLocalTee i) st locals vs).
+Proof.
+  intros W S1 Hl Hlast H. unfold set_tee_tail, push_consume in H.
+  destruct (consume (push_op s3 ICopy)) as [[p s4]|] eqn:E; [|discriminate].
+  assert (W0 : cwf nl (push_op s3 ICopy)) by (eapply cwf_same; [|exact W]; repeat split).
+  destruct (consume_spec nl _ p s4 E W0) as (Es & (O1 & O2 & O3) & En & Ec & W4 & Wp).
+  cbn [c_stack c_out c_last c_next c_consts c_bp push_op emit set_out] in Es, O1, O2, O3, En, Ec.
+  set (s5 := emit (push_loc s4 p) (i32_bytes (Z.of_nat i))) in *.
+  assert (W5 : cwf nl s5) by (eapply cwf_same; [|exact W4]; repeat split).
+  assert (Eo5 : c_out s5 = c_out s3 ++ ICopy :: i32_bytes (provider_idx p) ++ i32_bytes (Z.of_nat i)).
+  { unfold s5. cbn [c_out emit push_loc set_out]. rewrite O1. rewrite <- !app_assoc. reflexivity. }
+  assert (Eoff : cur_off s5 = cur_off s3 + 9).
+  { unfold cur_off. rewrite Eo5, app_length. cbn [length]. rewrite app_length, !i32_bytes_length. lia. }
+  assert (Hs1 : c_out s1 = c_out s5 /\ c_next s1 = c_next s3 /\ c_consts s1 = c_consts s3 /\ c_last s1 = None
+                /\ c_stack s1 = (if is_set then c_stack s4 else PLocal (Z.of_nat i) :: c_stack s4)).
+  { destruct is_set; inversion H; subst; cbn; rewrite ?En, ?Ec, ?O3, ?Hlast; repeat split; auto. }
+  destruct Hs1 as (Eo1 & En1 & Ec1 & El1 & Est1).
+  exists (ICopy :: i32_bytes (provider_idx p) ++ i32_bytes (Z.of_nat i)).
+  split; [rewrite Eo1; exact Eo5|]. split; [split; [lia|exists []; rewrite app_nil_r; exact Ec1]|]. split; [exact El1|].
+  intros st locals vs M R Hc.
+  pose proof (r_stack _ _ _ _ _ R) as RS. rewrite Es in RS. inversion RS as [|? v ? restv Rp Rr]; subst.
+  assert (S3 : small s3) by (eapply small_mono; eauto; lia).
+  assert (Hsem : exec_simple cap (if is_set then BLocalSet i else BLocalTee i) st locals (v :: restv)
+                 = match set_nth locals i v with
+                   | Some l' => inr (st, l', if is_set then restv else v :: restv)
+                   | None => inl false end).
+  { destruct is_set; cbn [exec_simple]; destruct (set_nth locals i v); reflexivity. }
+  rewrite Hsem. destruct (set_nth locals i v) as [l'|] eqn:Esn; [|exact I]. cbn [sim_result].
+  destruct (set_nth_spec locals i v l' Esn) as (Hi & _ & _).
+  assert (Hidx : 0 <= Z.of_nat i < nl) by (rewrite <- (r_nl _ _ _ _ _ R); lia).
+  assert (W1 : cwf nl s1).
+  { destruct is_set; inversion H; subst; [exact W5|]. exact (cwf_push_local nl s5 (Z.of_nat i) W5 Hidx). }
+  split; [exact W1|].
+  assert (Hp : idx_ok (provider_idx p)) by (eapply idx_ok_of_pwf; [exact S3| |exact Wp]; apply W).
+  assert (Hd : idx_ok (Z.of_nat i)) by (pose proof NR_small; destruct S3; destruct W as [[? ?] _ _ _ _]; unfold idx_ok; lia).
+  rewrite <- (r_pc _ _ _ _ _ R) in Hc.
+  pose proof (mstep_copy M (provider_idx p) (Z.of_nat i) (r_idx _ _ _ _ _ R) Hc Hp Hd) as Hstep.
+  eexists 1%nat, _. split; [cbn; rewrite Hstep; reflexivity|]. split; [|apply frame_eq_write; apply mupd_refl].
+  assert (Frest : Forall (pwf nl s1) (c_stack s4)).
+  { pose proof (w_stack _ _ W4) as F. eapply Forall_impl; [|exact F]. intros q Hq.
+    eapply pwf_ext; [| | |exact Hq]; destruct is_set; inversion H; subst; reflexivity. }
+  assert (Hl4 : has_local (Z.of_nat i) (c_stack s4) = false).
+  { unfold has_local in *. rewrite Es in Hl. cbn [existsb] in Hl. apply orb_false_iff in Hl. tauto. }
+  pose proof (rel_write_local s3 s1 st st locals l' (v :: restv) restv (c_stack s4) M M i (denote M p) v (ms_pc M + 9) (negb is_set)
+                R W1 S1 (mupd_refl M) Rr Frest Hl4 Esn Rp) as RW.
+  replace (if negb is_set then v :: restv else restv) with (if is_set then restv else v :: restv) in RW by (destruct is_set; reflexivity).
+  apply RW.
+  - rewrite Est1. destruct is_set; reflexivity.
+  - rewrite (r_pc _ _ _ _ _ R). unfold cur_off in *. rewrite Eo1. lia.
+  - apply (r_globals _ _ _ _ _ R).
+  - apply (r_mem _ _ _ _ _ R).
+Qed.
+
+(** ** the preservation copy of local.set / local.tee *)
+Lemma Forall2_map_subst {A} (R R' : provider -> A -> Prop) f l vs :
+  Forall2 R l vs -> (forall q w, In q l -> R q w -> R' (f q) w) -> Forall2 R' (map f l) vs.
+Proof. induction 1; intros H'; cbn; constructor; [apply H'; cbn; auto|apply IHForall2; intros; apply H'; cbn; auto]. Qed.
+
+Lemma has_local_subst idx rp l : is_local idx rp = false -> has_local idx (map (subst_local idx rp) l) = false.
+Proof.
+  intros Hr. induction l as [|q r IH]; cbn; [reflexivity|]. fold (has_local idx (map (subst_local idx rp) r)). rewrite IH.
+  unfold subst_local. destruct (is_local idx q) eqn:E; rewrite ?Hr, ?E; reflexivity.
+Qed.
+
+Lemma has_local_in idx l : has_local idx l = true -> In (PLocal idx) l.
+Proof.
+  unfold has_local. rewrite existsb_exists. intros (q & Hq & E). destruct q as [r|k|cc]; cbn in E; try discriminate.
+  apply Z.eqb_eq in E. subst. exact Hq.
+Qed.
+
+Lemma step_reserve s0 i d s0' st locals vs M :
+  cwf nl s0 -> c_next s0' <= NR -> Z.of_nat (length (c_consts s0)) < 2147483648 ->
+  has_local (Z.of_nat i) (c_stack s0) = true -> dyn_get s0 = (d, s0') ->
+  rel s0 st locals vs M ->
+  let s3 := push_loc (emit (push_op (set_stack s0' (map (subst_local (Z.of_nat i) (PDyn d)) (c_stack s0))) ICopy)
+                           (i32_bytes (Z.of_nat i))) (PDyn d) in
+  cwf nl s3 /\ has_local (Z.of_nat i) (c_stack s3) = false
+  /\ c_out s3 = c_out s0 ++ ICopy :: i32_bytes (Z.of_nat i) ++ i32_bytes d
+  /\ c_last s3 = c_last s0 /\ c_consts s3 = c_consts s0 /\ c_next s0 <= c_next s3 <= c_next s0 + 1
+  /\ (code_at c (cur_off s0) (ICopy :: i32_bytes (Z.of_nat i) ++ i32_bytes d) ->
+      exists M1, mstep M = SNext M1 /\ rel s3 st locals vs M1 /\ frame_eq M M1).
+Proof.
+  intros W Hnr Hcs Hl Hd R s3.
+  destruct (dyn_get_spec nl s0 d s0' Hd W) as (B & N & Nst & Es & (O1 & O2 & O3) & Ec & Bn & Sub & W').
+  pose proof (has_local_in _ _ Hl) as Hin.
+  assert (Hidx : 0 <= Z.of_nat i < nl).
+  { pose proof (w_stack _ _ W) as F. rewrite Forall_forall in F. apply (F _ Hin). }
+  assert (Hnl : 0 <= nl) by apply W.
+  assert (Fst : Forall (pwf nl s0') (map (subst_local (Z.of_nat i) (PDyn d)) (c_stack s0))).
+  { pose proof (w_stack _ _ W') as F. rewrite Es in F. apply Forall_forall. intros q Hq. apply in_map_iff in Hq.
+    destruct Hq as (q0 & <- & Hq0). unfold subst_local. destruct (is_local (Z.of_nat i) q0).
+    - cbn. split; [lia|exact N].
+    - rewrite Forall_forall in F. apply F. exact Hq0. }
+  assert (W3 : cwf nl s3).
+  { eapply cwf_same; [|apply (cwf_set_stack nl s0' _ W' Fst)]. repeat split. }
+  splits; auto; try lia; try (change (c_next s3) with (c_next s0'); lia).
+  - unfold s3. cbn [c_stack push_loc emit push_op set_out set_stack]. apply has_local_subst. reflexivity.
+  - unfold s3. cbn [c_out push_loc emit push_op set_out set_stack]. rewrite O1. rewrite <- !app_assoc. reflexivity.
+  - intros Hc. rewrite <- (r_pc _ _ _ _ _ R) in Hc.
+    assert (Hdi : idx_ok d) by (unfold idx_ok; pose proof NR_small; lia).
+    assert (Hii : idx_ok (Z.of_nat i)) by (unfold idx_ok; pose proof NR_small; destruct W' as [[? ?] _ _ _ _]; lia).
+    pose proof (mstep_copy M (Z.of_nat i) d (r_idx _ _ _ _ _ R) Hc Hii Hdi) as Hstep.
+    eexists. split; [exact Hstep|]. split; [|apply frame_eq_write; apply mupd_refl].
+    assert (HdNR : 0 <= d < NR) by lia.
+    eapply (rel_after_write s0 s3 st st locals locals vs vs M M); eauto.
+    + apply mupd_refl.
+    + unfold s3, cur_off. cbn [c_out push_loc emit push_op set_out set_stack]. rewrite O1, (r_pc _ _ _ _ _ R).
+      rewrite !app_length. cbn [length]. rewrite !i32_bytes_length. unfold cur_off. lia.
+    + unfold s3. cbn [c_stack push_loc emit push_op set_out set_stack].
+      eapply Forall2_map_subst; [apply (r_stack _ _ _ _ _ R)|]. intros q w Hq Hr.
+      unfold subst_local. destruct (is_local (Z.of_nat i) q) eqn:E.
+      * destruct q as [r|l|k]; cbn in E; try discriminate. apply Z.eqb_eq in E. subst l.
+        cbn [provider_idx]. rewrite (denote_write_same M M d _ _ (mupd_refl M)); [|lia|eapply reg_in_range; eauto].
+        exact Hr.
+      * change (get_local consts (set_pc (set_reg M d (get_local consts M (Z.of_nat i))) (ms_pc M + 9)) (provider_idx q))
+          with (denote (set_pc (set_reg M d (get_local consts M (Z.of_nat i))) (ms_pc M + 9)) q).
+        rewrite (denote_write M M d _ _ q (mupd_refl M)); auto; try lia; [eapply reg_in_range; eauto|].
+        eapply (pwf_idx_ne_dyn s0); eauto; try lia.
+        -- pose proof (w_stack _ _ W) as F. rewrite Forall_forall in F. apply F. exact Hq.
+        -- intro E'; subst q. contradiction.
+    + apply (r_nl _ _ _ _ _ R).
+    + eapply locals_kept; eauto. apply mupd_refl. lia.
+    + apply (r_globals _ _ _ _ _ R).
+    + apply (r_mem _ _ _ _ _ R).
+Qed.
+
+Lemma set_tee_tail_alloc s3 idx b s1 :
+  set_tee_tail s3 idx b = Some s1 -> c_next s1 = c_next s3 /\ c_consts s1 = c_consts s3.
+Proof.
+  unfold set_tee_tail, push_consume, consume. cbn [c_stack push_op emit set_out].
+  destruct (c_stack s3) as [|p st0]; [discriminate|].
+  destruct (negb (existsb (provider_eqb p) st0)); intros H; destruct b; inversion H; subst; clear H;
+    destruct p; cbn; auto.
+Qed.
+
+Lemma step_set_tee s lp s1 i is_set st locals vs M :
+  cwf nl s -> small s1 -> (lp = None \/ has_local (Z.of_nat i) (c_stack s) = true) ->
+  rel s st locals vs M -> set_tee lp (set_last s None) i is_set = Some s1 ->
+  step_ok s s1 M (exec_simple cap (if is_set then BLocalSet i else BLocalTee i) st locals vs) /\ c_last s1 = None.
+Proof.
+  intros W S1 Hlp R H. set (s0 := set_last s None) in *.
+  assert (W0 : cwf nl s0) by (apply cwf_last; exact W).
+  assert (R0 : rel s0 st locals vs M) by (eapply rel_same; [| |exact R]; reflexivity).
+  unfold set_tee in H. rewrite preserve_local_spec in H.
+  change (c_stack s0) with (c_stack s) in H.
+  destruct (has_local (Z.of_nat i) (c_stack s)) eqn:Hl.
+  - destruct (dyn_get s0) as [d s0'] eqn:Ed.
+    set (s3 := push_loc (emit (push_op (set_stack s0' (map (subst_local (Z.of_nat i) (PDyn d)) (c_stack s0))) ICopy)
+                              (i32_bytes (Z.of_nat i))) (PDyn d)) in *.
+    assert (Ht : set_tee_tail s3 (Z.of_nat i) is_set = Some s1) by (destruct lp; exact H).
+    destruct (set_tee_tail_alloc _ _ _ _ Ht) as (En1 & Ec1).
+    assert (Hnr : c_next s0' <= NR) by (change (c_next s0') with (c_next s3); rewrite <- En1; apply S1).
+    assert (Hcs : Z.of_nat (length (c_consts s0)) < 2147483648).
+    { destruct (dyn_get_spec nl s0 d s0' Ed W0) as (_ & _ & _ & _ & _ & Ec & _).
+      change (c_consts s0) with (c_consts s). change (c_consts s3) with (c_consts s0') in Ec1. rewrite Ec in Ec1.
+      change (c_consts s0) with (c_consts s) in Ec1. rewrite <- Ec1. apply S1. }
+    destruct (step_reserve s0 i d s0' st locals vs M W0 Hnr Hcs Hl Ed R0) as (W3 & Hl3 & Eo3 & El3 & Ec3 & Bn3 & Hm).
+    fold s3 in W3, Hl3, Eo3, El3, Ec3, Bn3, Hm.
+    destruct (step_tee_tail s3 s1 i is_set W3 S1 Hl3 El3 Ht) as (t2 & Eo1 & (Mn & ext & Mc) & El1 & Hsim).
+    split; [|exact El1].
+    exists ((ICopy :: i32_bytes (Z.of_nat i) ++ i32_bytes d) ++ t2).
+    split; [rewrite Eo1, Eo3; change (c_out s0) with (c_out s); rewrite <- !app_assoc; reflexivity|].
+    split; [split; [change (c_next s0) with (c_next s) in Bn3; lia|exists ext; rewrite Mc, Ec3; reflexivity]|].
+    intros Hc. apply code_at_app in Hc. destruct Hc as [Hc1 Hc2].
+    destruct (Hm Hc1) as (M1 & Hst & R3 & F1).
+    assert (Eoff : cur_off s3 = cur_off s + Z.of_nat (length (ICopy :: i32_bytes (Z.of_nat i) ++ i32_bytes d))).
+    { unfold cur_off. rewrite Eo3, app_length. change (c_out s0) with (c_out s). lia. }
+    rewrite <- Eoff in Hc2. specialize (Hsim st locals vs M1 R3 Hc2).
+    unfold sim_result in *.
+    destruct (exec_simple cap (if is_set then BLocalSet i else BLocalTee i) st locals vs) as [[|]|[[st' l'] vs']].
+    + destruct Hsim as (n & e & Hn). exists (S n), e. cbn. rewrite Hst. exact Hn.
+    + exact I.
+    + destruct Hsim as (W1 & n & M' & Hn & R1 & F2). split; [exact W1|].
+      exists (S n), M'. split; [cbn; rewrite Hst; exact Hn|]. split; [exact R1|eapply frame_eq_trans; eauto].
+  - destruct Hlp as [->|Hx]; [|discriminate].
+    set (s2 := set_stack s0 (c_stack s)) in *.
+    assert (Ht : set_tee_tail s2 (Z.of_nat i) is_set = Some s1) by exact H.
+    assert (W2 : cwf nl s2) by (eapply cwf_same; [|exact W0]; repeat split).
+    assert (R2 : rel s2 st locals vs M) by (eapply rel_same; [| |exact R]; reflexivity).
+    destruct (step_tee_tail s2 s1 i is_set W2 S1 Hl eq_refl Ht) as (t2 & Eo1 & Mo & El1 & Hsim).
+    split; [|exact El1]. exists t2. split; [exact Eo1|]. split; [exact Mo|]. intros Hc. apply (Hsim st locals vs M R2 Hc).
+Qed.
+
+(** ** a providing instruction followed by a short-circuited local.set / local.tee *)
+Lemma overwrite_end a b b' : length b' = length b -> overwrite (a ++ b) (length a) b' = a ++ b'.
+Proof.
+  intros H. induction a as [|x a IH]; cbn [app length overwrite].
+  - destruct b; cbn [overwrite]; rewrite H, skipn_all; apply app_nil_r.
+  - f_equal. exact IH.
+Qed.
+
+Lemma tail_assoc {A} (a : list A) x i l d : a ++ x :: i ++ l ++ d = (a ++ x :: i ++ l) ++ d.
+Proof. rewrite <- app_assoc. cbn [app]. rewrite <- !app_assoc. reflexivity. Qed.
+
+Lemma step_pair b opc imm k s s1 s2 i is_set st locals vs M :
+  gi_shape b = Some (opc, imm, k, true) -> sim_gi b = true -> cwf nl s -> small s2 ->
+  Z.of_nat i < 2147483648 ->
+  gi (set_last s None) opc imm k true = Some s1 ->
+  has_local (Z.of_nat i) (c_stack s1) = false ->
+  set_tee (c_last s1) (set_last s1 None) i is_set = Some s2 ->
+  rel s st locals vs M ->
+  step_ok s s2 M (match exec_simple cap b st locals vs with
+                  | inr (st', l', vs') => exec_simple cap (if is_set then BLocalSet i else BLocalTee i) st' l' vs'
+                  | inl x => inl x
+                  end) /\ c_last s2 = None.
+Proof.
+  intros Hsh Hsim W S2 Hi31 Hgi Hl H R.
+  destruct (gi_compile s opc imm k true s1 W Hgi) as (ps & rest & Es & Lps & Fps & Ec & Eb & W1 & Bn & (r & Es1 & Br & Nin & Eo & El)).
+  unfold set_tee in H. rewrite preserve_local_spec in H. change (c_stack (set_last s1 None)) with (c_stack s1) in H.
+  rewrite Hl, El in H.
+  set (off := cur_off s + 1 + Z.of_nat (length imm) + 4 * Z.of_nat k) in *.
+  set (sb := back_patch (set_stack (set_last s1 None) (c_stack s1)) off (Z.of_nat i)) in *.
+  assert (Wb : cwf nl sb) by (eapply cwf_same; [|exact W1]; repeat split).
+  destruct (consume sb) as [[p s4]|] eqn:Ecs; [|discriminate].
+  destruct (consume_spec nl sb p s4 Ecs Wb) as (Esb & (O1 & O2 & O3) & En4 & Ec4 & W4 & Wp).
+  change (c_stack sb) with (c_stack s1) in Esb. rewrite Es1 in Esb. inversion Esb as [[Ep Er4]]. subst p.
+  assert (Eob : c_out sb = c_out s ++ opc :: imm ++ loc_bytes ps ++ i32_bytes (Z.of_nat i)).
+  { unfold sb, back_patch. cbn [c_out set_out set_stack set_last]. rewrite Eo.
+    rewrite tail_assoc.
+    replace (Z.to_nat off) with (length (c_out s ++ opc :: imm ++ loc_bytes ps)).
+    - rewrite overwrite_end by (rewrite u32_bytes_length, i32_bytes_length; reflexivity).
+      rewrite (tail_assoc (c_out s) opc imm (loc_bytes ps) (i32_bytes (Z.of_nat i))). reflexivity.
+    - unfold off, cur_off. rewrite app_length. cbn [length]. rewrite app_length, loc_bytes_length. lia. }
+  assert (Hs2 : c_out s2 = c_out sb /\ c_next s2 = c_next s1 /\ c_consts s2 = c_consts s1 /\ c_last s2 = None
+                /\ c_stack s2 = (if is_set then rest else PLocal (Z.of_nat i) :: rest)).
+  { change (c_next sb) with (c_next s1) in En4. change (c_consts sb) with (c_consts s1) in Ec4.
+    change (c_last sb) with (@None Z) in O3.
+    destruct is_set; inversion H; subst; cbn; rewrite ?En4, ?Ec4, ?O3, ?O1, <- ?Er4; repeat split; auto. }
+  destruct Hs2 as (Eo2 & En2 & Ec2 & El2 & Est2). split; [|exact El2].
+  exists (opc :: imm ++ loc_bytes ps ++ i32_bytes (Z.of_nat i)).
+  split; [rewrite Eo2; exact Eob|]. split; [split; [lia|exists []; rewrite app_nil_r; congruence]|]. intros Hc.
+  assert (S : small s) by (eapply small_mono; [exact S2|lia|congruence]).
+  assert (Hnl : 0 <= nl) by apply W.
+  assert (Hii : idx_ok (Z.of_nat i)) by (unfold idx_ok; lia).
+  destruct (gi_core b opc imm k s ps rest st locals vs M (Z.of_nat i) Hsh Hsim W S Es Lps R Hii Hc) as (tops & restv & Evs & Rr & HS).
+  unfold sim_result. destruct (exec_simple cap b st locals vs) as [[|]|[[st' l'] vs']].
+  - destruct HS as (e & He). exists 1%nat, e. cbn. rewrite He. reflexivity.
+  - exact I.
+  - destruct HS as (v' & w & Mm & -> & -> & Hstep & Hw & U & Gl & Me).
+    assert (Hsem : exec_simple cap (if is_set then BLocalSet i else BLocalTee i) st' locals (v' :: restv)
+                   = match set_nth locals i v' with
+                     | Some l' => inr (st', l', if is_set then restv else v' :: restv)
+                     | None => inl false end).
+    { destruct is_set; cbn [exec_simple]; destruct (set_nth locals i v'); reflexivity. }
+    rewrite Hsem. destruct (set_nth locals i v') as [l'|] eqn:Esn; [|exact I].
+    destruct (set_nth_spec locals i v' l' Esn) as (Hilt & _ & _).
+    assert (Hidx : 0 <= Z.of_nat i < nl) by (rewrite <- (r_nl _ _ _ _ _ R); lia).
+    assert (W2 : cwf nl s2).
+    { destruct is_set; inversion H; subst; [exact W4|]. exact (cwf_push_local nl s4 (Z.of_nat i) W4 Hidx). }
+    split; [exact W2|].
+    eexists 1%nat, _. split; [cbn; rewrite Hstep; reflexivity|]. split; [|apply frame_eq_write; exact U].
+    assert (Frest : Forall (pwf nl s2) rest).
+    { pose proof (w_stack _ _ W4) as F. rewrite <- Er4 in F. eapply Forall_impl; [|exact F]. intros q Hq.
+      eapply pwf_ext; [| | |exact Hq]; destruct is_set; inversion H; subst; reflexivity. }
+    assert (Hlr : has_local (Z.of_nat i) rest = false).
+    { unfold has_local in *. rewrite Es1 in Hl. cbn [existsb] in Hl. apply orb_false_iff in Hl. tauto. }
+    pose proof (rel_write_local s s2 st st' locals l' vs restv rest M Mm i (w (reg Mm (Z.of_nat i))) v'
+                  (cur_off s + 1 + Z.of_nat (length imm) + 4 * Z.of_nat k + 4) (negb is_set)
+                  R W2 S2 U Rr Frest Hlr Esn (Hw _)) as RW.
+    replace (if negb is_set then v' :: restv else restv) with (if is_set then restv else v' :: restv) in RW by (destruct is_set; reflexivity).
+    apply RW; auto.
+    + rewrite Est2. destruct is_set; reflexivity.
+    + unfold cur_off. rewrite Eo2, Eob, app_length. cbn [length]. rewrite !app_length, loc_bytes_length, i32_bytes_length.
+      unfold cur_off. lia.
+Qed.
+
+(** ** the whole sequence *)
+Definition straight_ok (b : binstr) : bool :=
+  match b with
+  | BNop | BDrop => true
+  | BLocalGet i | BLocalSet i | BLocalTee i => Z.of_nat i <? 2147483648
+  | BConst t z => (0 <=? z) && (z <? 2 ^ bits t)
+  | BGlobalSet i => Z.of_nat i <? 65536
+  | _ => sim_gi b
+  end.
+
+Fixpoint straight_sem (bs : list binstr) (st : store) (locals vs : list val) : step_result :=
+  match bs with
+  | [] => inr (st, locals, vs)
+  | b :: r => match exec_simple cap b st locals vs with
+              | inr (st', l', vs') => straight_sem r st' l' vs'
+              | inl x => inl x
+              end
+  end.
+
+Lemma straight_ok_straight b : straight_ok b = true -> straight b = true.
+Proof. destruct b; cbn; try discriminate; auto; try (destruct t; try destruct op; cbn; auto; discriminate). Qed.
+
+Lemma sim_gi_shape b : sim_gi b = true -> exists opc imm k, gi_shape b = Some (opc, imm, k, true).
+Proof. destruct b; cbn; try discriminate; intros; eauto. Qed.
+
+(** a machine state related to any well-formed compile state (used to read off facts of the
+    compiler that do not depend on the machine) *)
+Lemma rel_dummy s : 0 <= nl -> 0 <= NR -> exists st locals vs M, rel s st locals vs M.
+Proof.
+  intros Hnl Hnr.
+  set (M := {| ms_pc := cur_off s; ms_idx := fidx; ms_frames := []; ms_ret := None; ms_mem := None;
+               ms_regs := repeat 0 (Z.to_nat NR); ms_base := O; ms_globals := []; ms_energy := 0%N |}).
+  exists {| s_mem := None; s_globals := []; s_table := [] |}, (repeat (VI64 0) (Z.to_nat nl)),
+         (map (fun p => VI64 (as_u64 (denote M p))) (c_stack s)), M.
+  constructor; cbn; auto.
+  - rewrite repeat_length. lia.
+  - induction (c_stack s); cbn; constructor; auto. cbn. reflexivity.
+  - rewrite repeat_length. lia.
+  - intros i v Hi. assert (v = VI64 0).
+    { apply nth_error_In in Hi. apply repeat_spec in Hi. exact Hi. }
+    subst v. cbn. unfold reg. cbn. assert (E : nth (Z.to_nat (Z.of_nat i)) (repeat 0 (Z.to_nat NR)) 0 = 0).
+    { destruct (nth_in_or_default (Z.to_nat (Z.of_nat i)) (repeat 0 (Z.to_nat NR)) 0) as [Hin|E]; auto.
+      apply repeat_spec in Hin. exact Hin. }
+    rewrite E. reflexivity.
+Qed.
+
+Definition is_set_tee (b : binstr) : option (nat * bool) :=
+  match b with BLocalSet i => Some (i, true) | BLocalTee i => Some (i, false) | _ => None end.
+Definition safe (s : cstate) (bs : list binstr) : Prop :=
+  match bs with
+  | b :: _ => match is_set_tee b with
+              | Some (i, _) => c_last s = None \/ has_local (Z.of_nat i) (c_stack s) = true
+              | None => True
+              end
+  | [] => True
+  end.
+
+Lemma step_one cx b s v1 s1 st locals vs M :
+  straight_ok b = true -> handle_opcode cx s v1 Reachable (OBasic b) = Some s1 ->
+  cwf nl s -> small s1 -> consts_ok s1 -> safe s [b] -> rel s st locals vs M ->
+  step_ok s s1 M (exec_simple cap b st locals vs) /\ (sim_gi b = true \/ c_last s1 = None).
+Proof.
+  intros Hok H W S1 CO Hsafe R.
+  destruct (handle_score cx s v1 b s1 (straight_ok_straight b Hok) H) as [Hsc _].
+  assert (GI : sim_gi b = true -> step_ok s s1 M (exec_simple cap b st locals vs) /\ (sim_gi b = true \/ c_last s1 = None)).
+  { intros Hg. destruct (sim_gi_shape b Hg) as (opc & imm & k & Hsh).
+    assert (Hgi : gi (set_last s None) opc imm k true = Some s1).
+    { destruct b; cbn [sim_gi] in Hg; try discriminate Hg; cbn [score gi_shape] in Hsc; cbn [gi_shape] in Hsh;
+        inversion Hsh; subst; exact Hsc. }
+    destruct (step_gi_prov b opc imm k s s1 st locals vs M Hsh Hg W S1 Hgi R) as (Hs & _). split; auto. }
+  destruct b; cbn [straight_ok] in Hok; try (apply GI; exact Hok); try discriminate Hok; cbn [score] in Hsc.
+  - (* nop *) inversion Hsc; subst. destruct (step_nop s st locals vs M W R). split; auto.
+  - (* drop *) destruct (consume (set_last s None)) as [[p s']|] eqn:E; [|discriminate]. inversion Hsc; subst.
+    destruct (step_drop s s1 p st locals vs M W R E). split; auto.
+  - (* local.get *) inversion Hsc; subst. destruct (step_local_get s i st locals vs M W R). split; auto.
+  - (* local.set *) cbn in Hsafe. destruct (step_set_tee s (c_last s) s1 i true st locals vs M W S1 Hsafe R Hsc). split; auto.
+  - (* local.tee *) cbn in Hsafe. destruct (step_set_tee s (c_last s) s1 i false st locals vs M W S1 Hsafe R Hsc). split; auto.
+  - (* global.set *) apply Z.ltb_lt in Hok. cbn [gi_shape] in Hsc.
+    destruct (step_global_set s s1 i st locals vs M W S1 Hok R Hsc). split; auto.
+  - (* const *) apply andb_true_iff in Hok. destruct Hok as [H0 H1]. apply Z.leb_le in H0. apply Z.ltb_lt in H1.
+    inversion Hsc; subst.
+    destruct (step_const s t z st locals vs M W R (conj H0 H1) CO). split; auto.
+Qed.
+
+Lemma step_two cx b1 b2 i is_set s v1 v2 s1 s2 st locals vs M :
+  straight_ok b1 = true -> sim_gi b1 = true -> is_set_tee b2 = Some (i, is_set) -> straight_ok b2 = true ->
+  handle_opcode cx s v1 Reachable (OBasic b1) = Some s1 ->
+  handle_opcode cx s1 v2 Reachable (OBasic b2) = Some s2 ->
+  has_local (Z.of_nat i) (c_stack s1) = false ->
+  cwf nl s -> small s2 -> rel s st locals vs M ->
+  step_ok s s2 M (match exec_simple cap b1 st locals vs with
+                  | inr (st', l', vs') => exec_simple cap b2 st' l' vs'
+                  | inl x => inl x
+                  end) /\ c_last s2 = None.
+Proof.
+  intros Hok1 Hg Hst Hok2 H1 H2 Hl W S2 R.
+  destruct (handle_score cx s v1 b1 s1 (straight_ok_straight b1 Hok1) H1) as [Hsc1 _].
+  destruct (handle_score cx s1 v2 b2 s2 (straight_ok_straight b2 Hok2) H2) as [Hsc2 _].
+  destruct (sim_gi_shape b1 Hg) as (opc & imm & k & Hsh).
+  assert (Hgi : gi (set_last s None) opc imm k true = Some s1).
+  { destruct b1; cbn [sim_gi] in Hg; try discriminate Hg; cbn [score gi_shape] in Hsc1; cbn [gi_shape] in Hsh;
+      inversion Hsh; subst; exact Hsc1. }
+  destruct b2; cbn [is_set_tee] in Hst; try discriminate Hst; inversion Hst; subst; cbn [score] in Hsc2;
+    cbn [straight_ok] in Hok2; apply Z.ltb_lt in Hok2.
+  - exact (step_pair b1 opc imm k s s1 s2 i true st locals vs M Hsh Hg W S2 Hok2 Hgi Hl Hsc2 R).
+  - exact (step_pair b1 opc imm k s s1 s2 i false st locals vs M Hsh Hg W S2 Hok2 Hgi Hl Hsc2 R).
 Qed.
 
 End Straight.
